@@ -28,6 +28,9 @@ TAINTS = [
     "1 if VY_CANARY.append(8) else 2",
     "[1, VY_CANARY.append(9)]",
     "{'a': VY_CANARY.append(10)}",
+    "1/3+VY_CANARY.append(11)", "2/7 or VY_CANARY.append(12)", "-5/2*[VY_CANARY.append(13)]", "1+VY_CANARY.append(14)",
+    "0x10 if VY_CANARY.append(15) else 1", "3.5 and VY_CANARY.append(16)", "1e3+len([VY_CANARY.append(17)])",
+    "7 /2+print(VY_CANARY.append(18))", "(VY_CANARY.append(19),)", "'a'+str(VY_CANARY.append(20))",
 ]
 USES = ["E", "†", "Ė", "E,", "†,", ":E$†", "w E", "wƛE;", "S E", "E E", "J E", "₴", ",", "…E", "vE", "⁽E†", "ßE",
         "λE;†", "@f|E;@f;", "⟨E⟩", "(E)", "[E|†]", "{E|X}", "£¥E", "→a←aE", "⅛¾E", "hE", "tE", "ṘE", "dE", "2*E", "`1`+E", "qE", "q†"]
@@ -47,7 +50,8 @@ def cases(tier, rng):
             out.append(("?" + u, "", [t, "[" + t + "]", "'" + t + "'"], True))
         out.append(("?,?,?,", "", [t, "(" + t + ",)", "{" + t + "}"], True))
     # error reporting: programs that fail in transpile, in exec and after exec (flags)
-    for p in ["←q", "¼", "λa|1;", "1 0/,←zz", "@f:*|1;@f;", "`abc`∆e", "3(←undefined)", "kn,", "¼¼", "`a`5ḭ←q", "`\\x`"]:
+    for p in ["@f:1;", "@g:x:y;", "(" * 3000, "λ" * 2000, "@f:1;1", "[" * 1500 + "1", "₍ǐ", "v", "≬+",
+              "←q", "¼", "λa|1;", "1 0/,←zz", "@f:*|1;@f;", "`abc`∆e", "3(←undefined)", "kn,", "¼¼", "`a`5ḭ←q", "`\\x`"]:
         for fl in ["", "j", "s", "W", "d", "L", "G", "C", "l", "Ṫ"]:
             out.append((p, fl, [], True))
     for p in ["λ1;", "λ1;λ2;", "`abc`", "1 2 3", "⟨`a`|1⟩", "kA", "3ɾ", "⟨⟩", "λx;", "@f|1;", "1£", "ki", "1 0/"]:
